@@ -15,7 +15,7 @@ for a in sys.argv:
     if a.startswith("--checks="):
         checks = a.split("=", 1)[1].split(",")
 tier = "thorough" if "--thorough" in sys.argv else "quick"
-src = f"/tmp/mutout/{prop}/{k}"
+src = f"{os.environ.get('MUTSRC', '/tmp/mutout')}/{prop}/{k}"
 wt = f"/tmp/mut_{prop}_eval{k}"
 sh = lambda cmd, **kw: subprocess.run(cmd, shell=True, capture_output=True, text=True, **kw)  # noqa: E731
 sh(f"git -C /repo worktree remove --force {wt}")
